@@ -78,6 +78,11 @@ def main(argv):
         if a.prop == "setup":
             from . import setup
             return setup.run()
+        if a.replay:
+            # a replay file is self-contained (input, expectation, observation); the checks are
+            # deterministic for a seed, so re-running the property reproduces the violation in it
+            with open(a.replay) as f:
+                log("[replay] " + f.read()[:4000])
         return run(a.prop, a.tier, a.replay)
     except ToolError as e:
         log(f"TOOL ERROR: {e}")
